@@ -60,16 +60,24 @@ def pmap(func, tasks, chunksize=1):
     if n <= 1 or len(tasks) <= 1:
         return [_Guarded(func)(t) for t in tasks]
     ctx = multiprocessing.get_context('fork')
-    pool = ctx.Pool(min(n, len(tasks)))
-    try:
-        out = pool.map(_Guarded(func), tasks, chunksize)
-        pool.close()        # let the workers exit by themselves (a coverage run writes its data at exit)
-    except BaseException:
-        pool.terminate()
-        raise
-    finally:
-        pool.join()
-    return out
+    for attempt in (1, 2):
+        pool = ctx.Pool(min(n, len(tasks)))
+        try:
+            out = pool.map(_Guarded(func), tasks, chunksize)
+            pool.close()        # let the workers exit by themselves (a coverage run writes its data at exit)
+            return out
+        except (BrokenPipeError, EOFError, ConnectionError) as e:
+            # the machinery's own plumbing failed (a worker process was killed from outside): the tasks are pure
+            # functions of their arguments, so the map is simply run again, once
+            pool.terminate()
+            sys.stderr.write('pmap: %s while talking to the workers, attempt %d\n' % (type(e).__name__, attempt))
+            if attempt == 2:
+                raise
+        except BaseException:
+            pool.terminate()
+            raise
+        finally:
+            pool.join()
 
 
 class Agg:
